@@ -599,6 +599,10 @@ pub fn expand(base: &Scenario, dry: &crate::exec::Report, tier: Tier) -> Vec<Sce
     let mut pts: std::collections::BTreeSet<u64> = Default::default();
     for (i, e) in events.iter().enumerate() { let site = e.split(':').next().unwrap_or(""); if interesting(site) { pts.insert(i as u64); if (i as u64) + 1 < n { pts.insert(i as u64 + 1); } } }
     let (cap, all) = match (mode.as_str(), tier) { ("fail", Tier::Quick) => (8, false), ("fail", Tier::Thorough) => (150, true), ("power", Tier::Thorough) => (100, true), (_, Tier::Quick) => (14, false), (_, Tier::Thorough) => (300, true) };
+    // every crash / power-loss point costs a copy of the directory, two reopens, a decode and a
+    // further commit: with thousands of events in the target step (multi-page values) fewer points
+    // per scenario keep one run within its wall-clock limit; the budget then goes to more scenarios
+    let cap = if mode != "fail" && tier == Tier::Thorough { cap.min((if mode == "power" { 40_000 } else { 120_000 } / n.max(1)).max(if mode == "power" { 12 } else { 24 })) } else { cap };
     let mut chosen: Vec<u64> = if all && n <= cap { (0..n).collect() } else {
         let mut v: Vec<u64> = pts.into_iter().collect();
         r.shuffle(&mut v);
